@@ -22,6 +22,7 @@ def run_schedule(order, seed):
 
 class C18(Prop):
     id = "C18"
+    confirm = False        # the property is about nondeterminism: a violation need not reproduce
     trace_module = "DetTrace"
     design_ref = "DESIGN.md section 3, C18"
     rule = ("schedules: every order of the battery with one repetition inserted anywhere (TLC-enumerated), a seeded sample of "
